@@ -152,6 +152,16 @@ main(void) {
 			fflush(stdout);
 			continue;
 		}
+		if (h_line[0] == 'E') { /* E <table list> : lou_getEmphClasses compiles (and caches) the translation part alone */
+			char *a = h_line + 1;
+			char const **cl;
+			while (*a == ' ') a++;
+			cl = lou_getEmphClasses(a);
+			printf("E %d\n", cl != NULL);
+			if (cl) free((void *)cl);
+			fflush(stdout);
+			continue;
+		}
 		if (h_line[0] == 'G') { /* G <table list> : pointer identity class and files opened by this lookup */
 			char *a = h_line + 1;
 			int o0 = opens_total;
@@ -210,6 +220,7 @@ main(void) {
 			int hung = 0;
 			int o0 = opens_total;
 			char *ihy = NULL, *ohy = NULL;
+			int splen = 0, tflen = 0;
 			sec_in = next_bar(p);
 			sec_tf = next_bar(sec_in);
 			sec_sp = next_bar(sec_tf);
@@ -236,18 +247,23 @@ main(void) {
 			if (maxlen < 0) maxlen = 0;
 			if (presence & 1) {
 				int m;
-				typeform = h_exact(sizeof(formtype) * maxlen);
+				/* back-translation only writes typeform, one entry per produced character: exactly outlen entries */
+				tflen = (fn == 'B' || fn == 'U') ? (outlen > 0 ? outlen : 0) : maxlen;
+				typeform = h_exact(sizeof(formtype) * tflen);
 				m = h_ints(sec_tf, v, MAXW);
-				for (k = 0; k < maxlen; k++) typeform[k] = (formtype)(k < m ? v[k] : 0);
+				for (k = 0; k < tflen; k++) typeform[k] = (formtype)(k < m ? v[k] : 0);
 			}
 			if (presence & 2) {
 				size_t sl;
-				spacing = h_exact(maxlen + 1);
-				memset(spacing, '~', maxlen + 1);
+				/* back-translation only writes spacing, one mark per produced character: exactly outlen bytes; forward
+				 * translation reads inlen marks and writes outlen */
+				splen = (fn == 'B' || fn == 'U') ? (outlen > 0 ? outlen : 0) : maxlen + 1;
+				spacing = h_exact(splen);
+				memset(spacing, '~', splen);
 				while (*sec_sp == ' ') sec_sp++;
 				sl = strlen(sec_sp);
 				while (sl && sec_sp[sl - 1] == ' ') sl--;
-				if (sl > (size_t)maxlen + 1) sl = maxlen + 1;
+				if (sl > (size_t)splen) sl = splen;
 				memcpy(spacing, sec_sp, sl);
 			}
 			if (presence & 4) {
@@ -334,11 +350,11 @@ main(void) {
 				for (k = 0; k < inlen; k++) printf(" %d", outputPos[k]);
 			printf(" |");
 			if (typeform)
-				for (k = 0; k < maxlen; k++) printf(" %x", typeform[k]);
+				for (k = 0; k < tflen; k++) printf(" %x", typeform[k]);
 			printf(" |");
 			if (spacing) {
 				printf(" ");
-				for (k = 0; k < maxlen + 1; k++) printf("%02x", (unsigned char)spacing[k]);
+				for (k = 0; k < splen; k++) printf("%02x", (unsigned char)spacing[k]);
 			}
 			printf(" |");
 			if (fn == 'R' && !hung && ret == 1)
